@@ -318,8 +318,13 @@ CorDoc(m, h) ==
          IF Less(h, One) THEN SphereForm(m.opt, h) ELSE Zero
     [] m.name = "Rational" ->
          Inv(Pow(Add(One, Div(Mul(h, h), QI(m.opt))), m.opt))
+    (* closed forms the generated user classes of part A are written from *)
+    [] m.name = "UserLin" ->
+         IF Less(h, One) THEN Sub(One, h) ELSE Zero
+    [] m.name = "UserRat" ->
+         Inv(Add(One, Mul(h, h)))
 
-Compact(m) == m.name # "Rational"
+Compact(m) == m.name \notin {"Rational", "UserRat"}
 
 (* admissible (dimension, shape) combinations according to the docstrings *)
 Admissible(m) ==
@@ -330,6 +335,7 @@ Admissible(m) ==
     [] m.name = "HyperSpherical" -> m.dim % 2 = 1
     [] m.name = "SuperSpherical" -> 2 * m.opt >= m.dim - 1
     [] m.name = "Rational" -> 2 * m.opt >= 1
+    [] m.name \in {"UserLin", "UserRat"} -> TRUE
 
 PolyParams == [var : VarVals, nug : NugVals, res : ResVals, le : LenExps]
 
